@@ -319,10 +319,12 @@ def check_text(ctx, desc, rows, kinds, dc, opts, case):
             if k == 'inventory' and expand and len(chunk) < len(v.get_positions()):
                 ctx.violation('c16.expand', f'inventory with {len(v.get_positions())} positions rendered on {len(chunk)} lines', case)
                 return None
-            if k in ('amount',):
-                dot_positions[ci].add(first.find('.') if '.' in first.split(' ')[0] or '.' in first else len(first.split()[0]) + (len(first) - len(first.lstrip())))
+            if k == 'amount':
+                m = re.search(r'-?[0-9][0-9,]*', first)
+                if m:
+                    dot_positions[ci].add(m.end())     # offset right after the integer digits = where the decimal point is/would be
     for ci, pos in enumerate(dot_positions):
-        if len(pos) > 1 and kinds[ci] == 'decimal':
+        if len(pos) > 1 and kinds[ci] in ('decimal', 'amount'):
             ctx.violation('c16.decimal_alignment', f'column {desc[ci].name}: decimal points at offsets {sorted(pos)}', case)
             return None
     return text
